@@ -339,6 +339,23 @@ example (c : CipherState) (ms : List Msg) : Authentic c ms (encodeAll c ms ++ en
       · exact Or.inr (Or.inr (ih _ _ _ h))
   rcases List.mem_append.mp hp with h | h <;> exact key ms c p off h
 
+/-- Why the stronger claim "after a failed read no later read yields data" is NOT a theorem (and
+    not true of the code, see notes): the first record is the two bytes 0x0002 and its header is
+    damaged; the first `ReadMessage` fails, a second one then takes the 18-byte payload record
+    (nonce 1) for a header, reads "length 2", and hands out the next record's length prefix
+    (here 5) as a two-byte message. The property therefore speaks about reads up to the first
+    failure (`delivered_prefix`); lnd drops the connection on a failed read. -/
+example :
+    (readMessage (CipherState.init (.atom 1) (.atom 2))
+        ((encodeAll (CipherState.init (.atom 1) (.atom 2)) [⟨2, 2⟩, ⟨5, 77⟩]).set 0 (.raw 0))).1.toOption = none ∧
+    (readMessage
+        (readMessage (CipherState.init (.atom 1) (.atom 2))
+          ((encodeAll (CipherState.init (.atom 1) (.atom 2)) [⟨2, 2⟩, ⟨5, 77⟩]).set 0 (.raw 0))).2.1
+        (readMessage (CipherState.init (.atom 1) (.atom 2))
+          ((encodeAll (CipherState.init (.atom 1) (.atom 2)) [⟨2, 2⟩, ⟨5, 77⟩]).set 0 (.raw 0))).2.2).1.toOption
+      = some ⟨2, 5⟩ := by
+  decide
+
 /-! ## 5. handshake -/
 
 theorem mkDh_comm (a b : Nat) : mkDh a b = mkDh b a := by
